@@ -233,27 +233,28 @@ variable {c : Promise.Cfg} {s : Promise.St}
 /-- "An immutable Promise takes the value of exactly one successful Fulfill": under every
     schedule at most one Fulfill/Fail reports success, exactly one once the promise holds
     anything, and a Fulfill that reported success has its value in the promise in every later
-    state. -/
+    state.  Any values: `Fulfill(nil)` is a legal call and the message `{nil, nil}` counts as
+    set (second wave; the first wave assumed non-nil values). -/
 theorem promise_single_assignment (hS : Scope c) (hr : Reach (Promise.sys c) s) :
     s.pcs.countP APc.isWin ≤ 1 ∧
     (cur s ≠ none → s.pcs.countP APc.isWin = 1) ∧
-    ∀ (i v : Nat), c.calls[i]? = some (.fulfill (some v)) → s.pcs[i]? = some (.done (.ferr none)) →
-      ∀ s', ReachFrom (Promise.sys c) s s' → cur s' = some ⟨some v, none⟩ := by
+    ∀ (i : Nat) (v : Option Nat), c.calls[i]? = some (.fulfill v) → s.pcs[i]? = some (.done (.ferr none)) →
+      ∀ s', ReachFrom (Promise.sys c) s s' → cur s' = some ⟨v, none⟩ := by
   have hI := Promise.inv_reach hS s hr
   refine ⟨?_, ?_, ?_⟩
   · cases hc : cur s with
     | none => rw [countP_all_start s.pcs (hI.unset hc)]; omega
-    | some r0 => rw [(hI.set_ r0 hc).2.1]; omega
+    | some r0 => rw [(hI.set_ r0 hc).1]; omega
   · intro hne
     cases hc : cur s with
     | none => exact absurd hc hne
-    | some r0 => exact (hI.set_ r0 hc).2.1
+    | some r0 => exact (hI.set_ r0 hc).1
   · intro i v hcall hpc s' hrf
     have hI' := Promise.inv_reach hS s' (hrf.reach hr)
     cases hc : cur s with
     | none => have := hI.unset hc i _ hpc; cases this
     | some r0 =>
-      have hcons := (hI.set_ r0 hc).2.2 i _ _ hcall hpc
+      have hcons := (hI.set_ r0 hc).2 i _ _ hcall hpc
       simp [consistent] at hcons
       subst hcons
       exact cur_stable hI hI' hrf hc
@@ -274,8 +275,8 @@ theorem other_fulfills_error_and_unchanged (hS : Scope c) (hr : Reach (Promise.s
   obtain ⟨pc, pc', hget, hset, hlt⟩ := step_pcs hstep
   have hlti := lt_of_get hget
   have hpc' : s'.pcs[i]? = some pc' := by rw [hset]; simp [hlti]
-  obtain ⟨_, hwin', hcons'⟩ := hI'.set_ r0 hcur'
-  obtain ⟨_, hwin, _⟩ := hI.set_ r0 hcur
+  obtain ⟨hwin', hcons'⟩ := hI'.set_ r0 hcur'
+  obtain ⟨hwin, _⟩ := hI.set_ r0 hcur
   have hc := hcons' i _ _ hcall hpc'
   cases pc' with
   | start => cases pc <;> simp [prank] at hlt
@@ -306,11 +307,11 @@ theorem waits_return_value (hS : Scope c) (hr : Reach (Promise.sys c) s)
     cases hc : cur s with
     | none => have := hI.unset hc i _ hpc; cases this
     | some r0 =>
-      have := (hI.set_ r0 hc).2.2 i _ _ hcall hpc
+      have := (hI.set_ r0 hc).2 i _ _ hcall hpc
       simp [consistent] at this; rw [this]
   refine ⟨fun s' hrf => cur_stable hI (Promise.inv_reach hS s' (hrf.reach hr)) hrf hcur, ?_⟩
   intro j r' hcj hpj
-  have := (hI.set_ r hcur).2.2 j _ _ hcj hpj
+  have := (hI.set_ r hcur).2 j _ _ hcj hpj
   simpa [consistent] using this
 
 /-- "without blocking forever / without deadlock": as long as some call has not returned and at
@@ -442,10 +443,13 @@ theorem runMacro_reach (M : Macro σ ι) (sched order : List Nat) :
     | cons k rest ih => intro m h; exact ih _ (release_reach M m k h)
   exact this _ _ Reach.init
 
-/-- instance: the Processor and Promise runs of the driver -/
-theorem driver_runs_are_reachable (pc : Processor.Cfg) (qc : Promise.Cfg) (sched order : List Nat) :
+/-- instance: the Processor and Promise runs of the driver (the promise runs are runs of the
+    protocol with the condition variable spelled out, `Biogo.PromiseCond.fsys`; with the sleep
+    forgotten they are runs of `Biogo.Promise.sys`: `driver_promise_runs_refine` in
+    Properties/C19_cond.lean) -/
+theorem driver_runs_are_reachable (pc : Processor.Cfg) (qc : PromiseCond.FCfg) (sched order : List Nat) :
     Reach (Processor.sys pc) (runMacro (procMacro pc) sched order).st ∧
-    Reach (Promise.sys qc) (runMacro (promMacro qc) sched order).st :=
+    Reach (PromiseCond.fsys qc) (runMacro (promMacro qc) sched order).st :=
   ⟨runMacro_reach (procMacro pc) sched order, runMacro_reach (promMacro qc) sched order⟩
 
 end driver
@@ -534,6 +538,11 @@ example :
 
 open Biogo.Promise in
 example : Scope { flags := ⟨false, true, false⟩, calls := [.fulfill (some 1), .wait, .fail none (some (.user 7))], fixed := true } :=
+  ⟨rfl, rfl, rfl, by decide⟩
+
+open Biogo.Promise in
+/-- nil values are inside the scope: Fulfill(nil), Fail(nil, nil) -/
+example : Scope { flags := ⟨false, false, false⟩, calls := [.fulfill none, .wait, .fail none none, .fulfill (some 1)], fixed := true } :=
   ⟨rfl, rfl, rfl, by decide⟩
 
 open Biogo.Processor in
